@@ -158,6 +158,17 @@ def job(payload):
                 bad.append(("unexpected-status", dict(text=t, st=r["st"], msg=r.get("msg"))))
             else:
                 zcheck.basic_events(r, t, bad)
+                # the closure followed by something that begins with a digit, a bracket or a quote, written with and without a blank
+                # between the suffix and what follows: `E+ 1` and `E+1` are the same two tokens
+                tail = rng.choice([[I(1), W("add")], [("paren", (), ("cat", [I(1), W("add")]))], [("cap", (), W("dup"))], [("str", [b"%s"])], [I(0), W("drop")]])
+                prog2 = ("cat", [G, ("close", ck, body)] + tail)
+                ta = zast.text(prog2)
+                tb = zast.text(prog2, zast.Style(random.Random(rng.getrandbits(32)), tight=True))
+                if ta != tb:
+                    w = zcheck.same_outcome(d.run(ta, fuel=FUEL, max=MAXRES), d.run(tb, fuel=FUEL, max=MAXRES))
+                    out["tight"] = out.get("tight", 0) + 1
+                    if w:
+                        bad.append(("layout:closure-suffix-written-without-blank:" + w, dict(a=ta, b=tb)))
                 # O1
                 m = M.run(prog, budget=400000)
                 if m["status"] in ("indeterminate", "budget"):
@@ -337,6 +348,7 @@ def run(chk):
                 "non-trivial = reachable set larger than the start stacks",
         "O1_model_comparisons": tot.get("o1", 0), "O1_skipped": tot.get("o1_skipped", 0),
         "O2_relations_checked": tot.get("rel", 0) + t2.get("rel", 0),
+        "closures_followed_by_a_digit_bracket_or_quote_with_and_without_blank": tot.get("tight", 0),
         "cases_where_E_E*_had_duplicates_ie_cycles_or_diamonds": tot.get("cyclic", 0),
         "cases_rerun_over_closure_values_with_captured_environment": tot.get("closure_underlay", 0),
         "max_fuel_used_by_any_run": tot.get("maxfuel", 0), "fuel_budget": FUEL,
